@@ -3,6 +3,7 @@ package lexgen
 import (
 	"fmt"
 	"strings"
+	"unicode"
 
 	"github.com/alecthomas/participle/v2/lexer"
 
@@ -29,7 +30,9 @@ type GMap struct {
 
 // Elided reports whether a rule name is dropped by the lexer.
 func Elided(name string) bool {
-	return len(name) > 0 && name[0] >= 'a' && name[0] <= 'z'
+	// "Lower-case rule names are elided." For names that begin with a non-ASCII letter (only generated for C05)
+	// the library looks at the first byte as if it were a Latin-1 character; so does this.
+	return len(name) > 0 && unicode.IsLower(rune(name[0]))
 }
 
 // ToLexer converts to the library's rule map.
@@ -91,6 +94,7 @@ type MapOpts struct {
 	MaxStates int
 	Elide     bool // allow lower-case (dropped) rules
 	Plain     bool // literals/classes only from the plain alphabet (no metacharacters)
+	OddNames  bool // C16: a state may be named by the empty string; C05: rule names may start with a non-ASCII letter
 }
 
 // GenMap generates a rule map the constructor is expected to accept.
@@ -104,6 +108,9 @@ func GenMap(r *mon.RNG, o *MapOpts) *GMap {
 	for i := 1; i < ns; i++ {
 		g.States = append(g.States, fmt.Sprintf("S%d", i))
 	}
+	if o.OddNames && !o.Supported && ns > 1 && r.Chance(1, 8) {
+		g.States[ns-1] = "" // a state named by the empty string is a state like any other
+	}
 	pool := map[string]*RX{} // name -> pattern tree (a name always has one pattern)
 	var poolNames []string
 	nameN := 0
@@ -111,6 +118,11 @@ func GenMap(r *mon.RNG, o *MapOpts) *GMap {
 		nameN++
 		if elide {
 			return fmt.Sprintf("skip%d", nameN)
+		}
+		if o.OddNames && o.Supported && r.Chance(1, 10) {
+			// whether a rule is elided is decided by the first BYTE of its name: 0xCE (Greek) and 0xC3 0x89 (É) count as upper case
+			// for the runtime lexer and the generator alike; both must agree whatever they decide
+			return fmt.Sprintf("%s%d", r.Pick("λ", "É", "空", "ß", "Ω"), nameN)
 		}
 		switch r.Intn(16) {
 		case 0: // names that start with neither an upper- nor a lower-case letter are ordinary (not elided) rules
